@@ -376,7 +376,12 @@ impl C16 {
                 } else {
                     let o = std::str::from_utf8(&t.old).expect("utf-8");
                     let n = std::str::from_utf8(&t.new).expect("utf-8");
-                    if case.nocase {
+                    if case.nocase && case.sample_seed & 1 == 1 {
+                        // the other user type: lengths and slices in chars
+                        use crate::custom_str::Cu;
+                        let diff = cfg.diff_lines(Cu::new(o), Cu::new(n));
+                        self.run_ops(case, &diff, out, &mut dig)
+                    } else if case.nocase {
                         use crate::custom_str::Ci;
                         let diff = cfg.diff_lines(Ci::new(o), Ci::new(n));
                         self.run_ops(case, &diff, out, &mut dig)
@@ -409,7 +414,7 @@ impl Prop for C16 {
         "exploration"
     }
     fn rule(&self) -> &'static str {
-        "cases drawn from the run seed: two line texts whose replaced blocks share words (multi-byte words, NBSP/tab/ideographic-space separators, LF/CRLF/lone-CR, missing final newline, 1..3 vs 1..3 line blocks), str (a fifth of them diffed through a user-side case-insensitive DiffableStr wrapper, with the case of letters flipped on the new side) or [u8] (a third of the [u8] texts with ill-formed UTF-8 sequences spliced in: invalid lead bytes, truncated characters, lone continuation bytes, surrogates, overlongs), outer algorithm; for every op: iter_inline_changes_deadline with no deadline, with the deadline expiring at EVERY probe k of the inner Patience word diff (0..=K), and the default iter_inline_changes under a cost-model virtual clock against its hard-coded 500 ms budget; every result is compared with iter_changes(op). evaluations = executions; distinct non-trivial = distinct (op, k, emphasised segmentation) among executions in which the inner deadline actually expired and the per-line assembly path still ran"
+        "cases drawn from the run seed: two line texts whose replaced blocks share words (multi-byte words, NBSP/tab/ideographic-space separators, LF/CRLF/lone-CR, missing final newline, 1..3 vs 1..3 line blocks), str (a fifth of them diffed through a user-side DiffableStr wrapper: case-insensitive, with the case of letters flipped on the new side, or one whose len()/slice() count characters instead of bytes) or [u8] (a third of the [u8] texts with ill-formed UTF-8 sequences spliced in: invalid lead bytes, truncated characters, lone continuation bytes, surrogates, overlongs), outer algorithm; for every op: iter_inline_changes_deadline with no deadline, with the deadline expiring at EVERY probe k of the inner Patience word diff (0..=K), and the default iter_inline_changes under a cost-model virtual clock against its hard-coded 500 ms budget; every result is compared with iter_changes(op). evaluations = executions; distinct non-trivial = distinct (op, k, emphasised segmentation) among executions in which the inner deadline actually expired and the per-line assembly path still ran"
     }
     fn fault_names(&self) -> Vec<&'static str> {
         vec![
